@@ -34,8 +34,8 @@ META = dict(
          "full handshakes with a side that rewrites its own kex message confirm the victim dies without NEWKEYS.",
     note="GSS-API kex engines are not driven (no GSS context on the image). 1 and p-1 are inside the allowed range "
          "and not judged. The type of the exception is not judged (C38). Negative gex primes are not judged.",
-    rule="case = (engine, role, message, value class, value); distinct = hash of those; in-range control values "
-         "count as cases but carry no verdict",
+    rule="case = (engine, role, message, value class, value), distinct = hash of those; non-trivial = the oracle "
+         "says the value must be rejected (in-range control values are evaluated and counted in monitors only)",
     assumptions=["pure-Python Montgomery ladder (validated per run against the backend) defines the X25519 result",
                  "NIST curve parameters validated per run against backend-generated points"],
 )
@@ -178,7 +178,7 @@ def stratum_group(ctx, idx):
     rng = ctx.rng
     for name, cls in GROUPS:
         p = cls.P
-        nrand = ctx.pick(100, 2500) if p.bit_length() <= 2048 else ctx.pick(10, 250)
+        nrand = ctx.pick(60, 1800) if p.bit_length() <= 2048 else ctx.pick(6, 150)
         for role in ("client", "server"):
             for klass, v, pad, bad in dh_values(rng, p, nrand):
                 i = next(idx)
@@ -197,7 +197,7 @@ def stratum_group(ctx, idx):
                 desc = dict(kind="dh-group", engine=name, role=role, field=field, klass=klass,
                             value=("p%+d" % (v - p)) if abs(v - p) < 4 else hex(v)[:48],
                             pad=pad, exception=repr(exc)[:120], calls_after=after)
-                ctx.case(("grp", name, role, hex(v), pad), sample=desc if i % 97 == 0 else None)
+                ctx.case(("grp", name, role, hex(v), pad), sample=desc if i % 97 == 0 else None, nontrivial=bad)
                 if bad:
                     judge_bad(ctx, "group", name, role, field, klass, exc, after, desc)
                 else:
@@ -241,7 +241,8 @@ def stratum_gex_client_group(ctx, idx):
             exc, after, _ = feed(eng, st, 31, mpint(p) + mpint(2))
             desc = dict(kind="gex-group-size", engine=name, role="client", p_bits=p.bit_length(),
                         exception=repr(exc)[:120], calls_after=after)
-            ctx.case(("gexsize", name, hex(p)), sample=desc if bits in (1023, 8193) else None)
+            ctx.case(("gexsize", name, hex(p)), sample=desc if bits in (1023, 8193) else None,
+                     nontrivial=p.bit_length() < 1024 or p.bit_length() > 8192)
             ctx.count("gex_group_sizes_fed")
             if p.bit_length() < 1024 or p.bit_length() > 8192:
                 klass = "below 1024 bits" if p.bit_length() < 1024 else "above 8192 bits"
@@ -265,7 +266,7 @@ def stratum_gex_values(ctx, idx):
         # client: f in GEX_REPLY
         for bits in sorted(primes):
             p = primes[bits]
-            nrand = ctx.pick(10, 400) if bits <= 2048 else ctx.pick(3, 80)
+            nrand = ctx.pick(8, 300) if bits <= 2048 else ctx.pick(3, 50)
             vals = dh_values(rng, p, nrand)
             if ctx.quick and bits > 2048:  # accepting a big group costs a modexp per case
                 vals = vals[::3]
@@ -285,7 +286,7 @@ def stratum_gex_values(ctx, idx):
                 desc = dict(kind="gex-f", engine=name, role="client", p_bits=bits, klass=klass, pad=pad,
                             value=("p%+d" % (v - p)) if abs(v - p) < 4 else hex(v)[:48],
                             exception=repr(exc)[:120], calls_after=after)
-                ctx.case(("gexf", name, bits, hex(v), pad), sample=desc if i % 101 == 0 else None)
+                ctx.case(("gexf", name, bits, hex(v), pad), sample=desc if i % 101 == 0 else None, nontrivial=bad)
                 if bad:
                     judge_bad(ctx, "gex", name, "client", "f", klass, exc, after, desc)
                 else:
@@ -296,7 +297,7 @@ def stratum_gex_values(ctx, idx):
         if ctx.quick:
             requests = [requests[0], requests[2], requests[4], requests[5], None]
         for req in requests:
-            nrand = ctx.pick(4, 300)
+            nrand = ctx.pick(4, 200)
             probe = dh_values(rng, 23, 0)  # shapes only; values are rebuilt once p is known
             for k in range(len(probe) + nrand):
                 i = next(idx)
@@ -321,7 +322,7 @@ def stratum_gex_values(ctx, idx):
                 desc = dict(kind="gex-e", engine=name, role="server", request=req, p_bits=p.bit_length(), klass=klass,
                             pad=pad, value=("p%+d" % (v - p)) if abs(v - p) < 4 else hex(v)[:48],
                             exception=repr(exc)[:120], calls_after=after)
-                ctx.case(("gexe", name, req, p.bit_length(), hex(v), pad), sample=desc if i % 103 == 0 else None)
+                ctx.case(("gexe", name, req, p.bit_length(), hex(v), pad), sample=desc if i % 103 == 0 else None, nontrivial=bad)
                 if bad:
                     judge_bad(ctx, "gex", name, "server", "e", klass, exc, after, desc)
                 else:
@@ -428,7 +429,7 @@ def stratum_ecdh(ctx, idx):
     rng = ctx.rng
     for cname, c in CURVES.items():
         for role in ("client", "server"):
-            for klass, blob, bad in ec_points(rng, c, ctx.pick(40, 1500)):
+            for klass, blob, bad in ec_points(rng, c, ctx.pick(40, 1200)):
                 i = next(idx)
                 if not ctx.mine(i):
                     continue
@@ -444,7 +445,7 @@ def stratum_ecdh(ctx, idx):
                 exc, after, _ = feed(eng, st, ptype, payload)
                 desc = dict(kind="ecdh-point", engine="Kex" + cname.capitalize(), role=role, klass=klass, point=blob,
                             exception=repr(exc)[:120], calls_after=after)
-                ctx.case(("ec", cname, role, blob), sample=desc if i % 89 == 0 else None)
+                ctx.case(("ec", cname, role, blob), sample=desc if i % 89 == 0 else None, nontrivial=bad)
                 if bad:
                     k = klass.split(":")[0]
                     if judge_bad(ctx, "ecdh", "Kex" + cname.capitalize(), role, field, k + " point", exc, after, desc):
@@ -582,7 +583,7 @@ def stratum_curve25519(ctx, idx):
                 exc, after, _ = feed(eng, st, ptype, payload)
                 desc = dict(kind="x25519", role=role, klass=klass, u=blob, zero_returning_backend=double,
                             exception=repr(exc)[:120], calls_after=after)
-                ctx.case(("x25519", role, double, blob), sample=desc if i % 53 == 0 else None)
+                ctx.case(("x25519", role, double, blob), sample=desc if i % 53 == 0 else None, nontrivial=bad or double)
                 if double:
                     # whatever the input, the exchange result the engine sees is all-zero
                     if judge_bad(ctx, "curve25519", "KexCurve25519", role, field,
@@ -710,7 +711,7 @@ def run_full_stack(ctx, label, kex, evil_side, ptype, rewrite, must_reject):
     wit = dict(kind="full-handshake", case=label, kex=kex, malicious_side=evil_side, rewritten=state["rewritten"],
                victim_calls=vcalls, victim_newkeys_sent=len(newkeys), completed=completed,
                victim_exception=repr(vexc)[:160])
-    ctx.case(("full", label, kex, evil_side, state.get("raw")), sample=wit if label.endswith("equals p") else None)
+    ctx.case(("full", label, kex, evil_side, state.get("raw")), sample=wit if label.endswith("equals p") else None, nontrivial=must_reject)
     if not state["rewritten"] or not bad_seen:
         ctx.count("full_stack_value_not_delivered")
         return
@@ -759,8 +760,8 @@ def run(ctx):
     stratum_ecdh(ctx, idx)
     stratum_curve25519(ctx, idx)
     stratum_full_stack(ctx, idx)
-    ctx.require("bad_inputs_fed", ctx.pick(1000, 15000))
-    ctx.require("bad_inputs_rejected", ctx.pick(1000, 15000))
+    ctx.require("bad_inputs_fed", ctx.pick(800, 10000))
+    ctx.require("bad_inputs_rejected", ctx.pick(800, 10000))
     for fam in ("group", "gex", "ecdh", "curve25519"):
         for role in ("client", "server"):
             ctx.require("bad_inputs_fed_%s_%s" % (fam, role), 40)
